@@ -486,6 +486,13 @@ class Tr(object):
         ok, target = free_value(self.fn, f.id)
         if f.id in BUILTIN_FN and (not ok or getattr(target, '__module__', '') in ('builtins', 'math')):
             args = n.args
+            # arities the model implements; anything else fails closed rather than being mis-read
+            arity = {'sum': (1, 2), 'float': (1, 1), 'str': (1, 1), 'len': (1, 1), 'any': (1, 1), 'list': (1, 1), 'round': (2, 2), 'ceil': (1, 1)}.get(f.id)
+            if arity is not None and not (arity[0] <= len(args) <= arity[1]):
+                self.fail(n, 'call of %s with %d arguments' % (f.id, len(args)))
+            if f.id == 'sum' and len(args) == 2:
+                # sum(iterable, start) = start + the items (exact arithmetic in the model: the order of additions does not matter)
+                return '(EBin OAdd %s (ECall FSum %s))' % (self.expr(args[1]), clist([self.expr(args[0])]))
             if f.id in ('sum', 'any', 'list', 'min', 'max') and len(args) == 1 and isinstance(args[0], ast.GeneratorExp):
                 return '(ECall %s %s)' % (BUILTIN_FN[f.id], clist([self.expr(args[0])]))
             return '(ECall %s %s)' % (BUILTIN_FN[f.id], clist([self.expr(a) for a in args]))
